@@ -867,6 +867,20 @@ func (s *TxStore) Rollback(tx mwdb.DBTransaction, height uint64) error {
 							}
 						}
 					}
+					// the deposit record of a staking / binding coinbase output goes with its credit
+					if ps.IsStaking() || ps.IsBinding() {
+						history := &gameHistory{
+							walletId:    ma.Account(),
+							txhash:      rec.Hash,
+							vout:        op.Index,
+							isBinding:   ps.IsBinding(),
+							blockHeight: curHeight,
+						}
+						err = nsGameHistory.Delete(keyGameHistory(history))
+						if err != nil {
+							return err
+						}
+					}
 				}
 				continue
 			}
